@@ -1,5 +1,6 @@
 # -*- coding: utf-8 -*-
 
+import copy
 import json
 from typing import (
     Any,
@@ -106,6 +107,16 @@ class ResolutionContext:
         """
         Register an error during the current execution.
         """
+        if any(registered is err for registered in self._errors):
+            # The same exception instance was already reported for another
+            # position (e.g. a resolver raising a shared instance for several
+            # list items): every report must keep its own path.
+            try:
+                err = copy.copy(err)
+            except Exception:  # pragma: no cover
+                pass
+            else:
+                err.nodes = [node] if node else list(err.nodes)
         if node:
             if not err.nodes:
                 err.nodes = [node]
